@@ -17,10 +17,10 @@ type Term struct {
 	Op   string // param, freevar, field, call, extract, const, binop, unop, phi, local, global, index, lookup, slice, typeassert, closure, alloc, make, range, next, func, unknown
 	Name string // field name / callee short name / constant text / operator / variable name
 	Args []*Term
-	Idx  int          // extract index
-	V    ssa.Value    // originating value (nil for synthesised terms)
-	Call *ssa.Call    // for Op==call / extract: the call instruction
-	Fld  *types.Var   // for Op==field
+	Idx  int           // extract index
+	V    ssa.Value     // originating value (nil for synthesised terms)
+	Call *ssa.Call     // for Op==call / extract: the call instruction
+	Fld  *types.Var    // for Op==field
 	Fn   *ssa.Function // static callee for calls, function for closure/func
 }
 
